@@ -32,4 +32,222 @@ theorem invfact_eq (i : Fin 35) : (invfact i : K) = 1 / (Nat.factorial i : K) :=
   obtain ⟨h1, h2⟩ := table_nat i
   simp only [invfact, sc_hdiv, sc_ofNat, h1, h2, Nat.cast_one]
 
+
+/-! ### Stumpff relations -/
+
+/-- the polynomial identities between the four Stumpff functions at argument `z`
+    that the duplication formulas preserve (for the true functions:
+    c0 = cos√z, c1 = sin√z/√z, c2 = (1-c0)/z, c3 = (1-c1)/z). -/
+structure StumpffRel (z : K) (c : Cs3 K) : Prop where
+  h0 : c.c0 = 1 - z * c.c2
+  h1 : c.c1 = 1 - z * c.c3
+  h2 : c.c1 ^ 2 = (1 + c.c0) * c.c2
+
+theorem StumpffRel.pythagoras {z : K} {c : Cs3 K} (h : StumpffRel z c) :
+    c.c0 ^ 2 + z * c.c1 ^ 2 = 1 := by
+  obtain ⟨h0, h1, h2⟩ := h
+  rw [h2, h0]; ring
+
+variable [CharZero K]
+
+theorem cs3DupStep_rel {z : K} {c : Cs3 K} (h : StumpffRel z c) :
+    StumpffRel (4 * z) (cs3DupStep c) := by
+  obtain ⟨h0, h1, h2⟩ := h
+  have hp : c.c0 ^ 2 + z * c.c1 ^ 2 = 1 := StumpffRel.pythagoras ⟨h0, h1, h2⟩
+  refine ⟨?_, ?_, ?_⟩
+  · simp only [cs3DupStep, sc_hadd, sc_hsub, sc_hmul, sc_one, n2_eq, half_eq, quarter_eq]
+    linear_combination 2 * hp
+  · simp only [cs3DupStep, sc_hadd, sc_hsub, sc_hmul, sc_one, n2_eq, half_eq, quarter_eq]
+    linear_combination c.c0 * h1 + h0
+  · simp only [cs3DupStep, sc_hadd, sc_hsub, sc_hmul, sc_one, n2_eq, half_eq, quarter_eq]
+    ring
+
+theorem cs3Dup_rel (n : Nat) {z : K} {c : Cs3 K} (h : StumpffRel z c) :
+    StumpffRel (4 ^ n * z) (cs3Dup n c) := by
+  induction n generalizing z c with
+  | zero => simpa [cs3Dup] using h
+  | succ n ih =>
+    have := ih (cs3DupStep_rel h)
+    simp only [cs3Dup]
+    convert this using 1
+    ring
+
+
+/-! ### the Horner series -/
+
+theorem fact_vals : Nat.factorial 0 = 1 ∧ Nat.factorial 1 = 1 ∧ Nat.factorial 2 = 2 ∧ Nat.factorial 3 = 6 ∧
+    Nat.factorial 4 = 24 ∧ Nat.factorial 5 = 120 ∧ Nat.factorial 6 = 720 ∧ Nat.factorial 7 = 5040 ∧
+    Nat.factorial 8 = 40320 ∧ Nat.factorial 9 = 362880 ∧ Nat.factorial 10 = 3628800 ∧
+    Nat.factorial 11 = 39916800 ∧ Nat.factorial 12 = 479001600 ∧ Nat.factorial 13 = 6227020800 ∧
+    Nat.factorial 14 = 87178291200 ∧ Nat.factorial 15 = 1307674368000 := by decide +kernel
+
+/-- closed form of the Horner evaluation of stumpff_cs3: truncated Stumpff series -/
+theorem cs3Series_eq (z : K) :
+    (cs3Series z).c3 = 1/6 - z/120 + z^2/5040 - z^3/362880 + z^4/39916800 - z^5/6227020800 ∧
+    (cs3Series z).c2 = 1/2 - z/24 + z^2/720 - z^3/40320 + z^4/3628800 - z^5/479001600 ∧
+    (cs3Series z).c1 = 1 - z * (cs3Series z).c3 ∧
+    (cs3Series z).c0 = 1 - z * (cs3Series z).c2 := by
+  obtain ⟨f0, f1, f2, f3, f4, f5, f6, f7, f8, f9, f10, f11, f12, f13, f14, f15⟩ := fact_vals
+  refine ⟨?_, ?_, ?_, ?_⟩ <;>
+  · simp only [cs3Series, invfact_eq, sc_hsub, sc_hmul, Fin.isValue]
+    norm_num [Nat.factorial]
+    try ring
+
+
+/-! ### Stiefel G-functions -/
+
+/-- G-relations for energy parameter `β` and universal variable `X` -/
+structure GRel (β X : K) (g : Cs3 K) : Prop where
+  h0 : g.c0 = 1 - β * g.c2
+  h1 : g.c1 = X - β * g.c3
+  h2 : g.c1 ^ 2 = (1 + g.c0) * g.c2
+
+omit [CharZero K] in
+theorem scaleGs3_rel {β X : K} {c : Cs3 K} (h : StumpffRel (β * (X * X)) c) :
+    GRel β X (scaleGs3 X c) := by
+  obtain ⟨h0, h1, h2⟩ := h
+  refine ⟨?_, ?_, ?_⟩ <;> simp only [scaleGs3, sc_hmul]
+  · rw [h0]; ring
+  · rw [h1]; ring
+  · linear_combination (X * X) * h2
+
+/-! ### f-g update: scalar identities
+  `F = 1 - M G2/r0`, `G = dt - M G3`, `Fd = -M G1/(r0 r)`, `Gd = 1 - M G2/r`. -/
+section sc
+omit [CharZero K]
+variable (r0 r eta beta M X dt G0 G1 G2 G3 v2 : K)
+    (h0 : G0 = 1 - beta * G2) (h1 : G1 = X - beta * G3) (h2 : G1 ^ 2 = (1 + G0) * G2)
+    (hk : r0 * X + eta * G2 + (M - beta * r0) * G3 = dt)
+    (hr : r = r0 + eta * G1 + (M - beta * r0) * G2) (r0ne : r0 ≠ 0) (rne : r ≠ 0)
+    (hv : v2 = 2 * M / r0 - beta)
+
+include h0 h1 h2 hk hr r0ne rne in
+theorem fg_wronskian_sc :
+    (1 - M * G2 / r0) * (1 - M * G2 / r) - (dt - M * G3) * (-(M * G1) / (r0 * r)) = 1 := by
+  have hX : X = G1 + beta * G3 := by linear_combination -h1
+  subst hk
+  field_simp
+  subst hX h0
+  rw [hr]
+  linear_combination (r0 * M) * h2
+
+include h0 h1 h2 hk hr r0ne hv in
+theorem fg_radius_sc :
+    (1 - M * G2 / r0) ^ 2 * (r0 * r0) + 2 * (1 - M * G2 / r0) * (dt - M * G3) * eta
+      + (dt - M * G3) ^ 2 * v2 = r ^ 2 := by
+  have hX : X = G1 + beta * G3 := by linear_combination -h1
+  subst hk hv
+  field_simp
+  subst hX h0
+  rw [hr]
+  linear_combination (-r0 * (-2 * M * r0 + beta * r0 ^ 2 + eta ^ 2)) * h2
+
+include h0 h2 hr r0ne rne hv in
+theorem fg_energy_sc :
+    2 * M / r - ((-(M * G1) / (r0 * r)) ^ 2 * (r0 * r0)
+      + 2 * (-(M * G1) / (r0 * r)) * (1 - M * G2 / r) * eta + (1 - M * G2 / r) ^ 2 * v2) = beta := by
+  subst hv
+  field_simp
+  subst h0
+  rw [hr]
+  linear_combination (-M ^ 2 * r0) * h2
+
+include h0 h1 hk hr r0ne rne hv in
+theorem fg_eta_sc :
+    (1 - M * G2 / r0) * (-(M * G1) / (r0 * r)) * (r0 * r0)
+      + ((1 - M * G2 / r0) * (1 - M * G2 / r) + (dt - M * G3) * (-(M * G1) / (r0 * r))) * eta
+      + (dt - M * G3) * (1 - M * G2 / r) * v2 = eta * G0 + (M - beta * r0) * G1 := by
+  have hX : X = G1 + beta * G3 := by linear_combination -h1
+  subst hk hv
+  field_simp
+  subst hX h0
+  rw [hr]
+  ring
+
+include h0 h2 hr r0ne rne in
+theorem fg_laplace1_sc :
+    (1 - M * G2 / r0) * (M / r - beta) - (-(M * G1) / (r0 * r)) * (eta * G0 + (M - beta * r0) * G1)
+      = M / r0 - beta := by
+  field_simp
+  subst h0
+  rw [hr]
+  linear_combination (-M * (-M + beta * r0)) * h2
+
+include h0 h1 h2 hk hr rne in
+theorem fg_laplace2_sc :
+    (dt - M * G3) * (M / r - beta) - (1 - M * G2 / r) * (eta * G0 + (M - beta * r0) * G1) = -eta := by
+  have hX : X = G1 + beta * G3 := by linear_combination -h1
+  subst hk
+  field_simp
+  subst hX h0
+  rw [hr]
+  linear_combination (-M * eta) * h2
+
+end sc
+
+/-! ### vectors -/
+section vec
+omit [CharZero K]
+
+def rr (p : P6 K) : K := p.x * p.x + p.y * p.y + p.z * p.z
+def vv (p : P6 K) : K := p.vx * p.vx + p.vy * p.vy + p.vz * p.vz
+def xv (p : P6 K) : K := p.x * p.vx + p.y * p.vy + p.z * p.vz
+/-- angular momentum x × v -/
+def Lx (p : P6 K) : K := p.y * p.vz - p.z * p.vy
+def Ly (p : P6 K) : K := p.z * p.vx - p.x * p.vz
+def Lz (p : P6 K) : K := p.x * p.vy - p.y * p.vx
+/-- Laplace–Runge–Lenz vector `v × (x × v) − M x/|x|`, with `|x|` supplied as `r` -/
+def Ax (M r : K) (p : P6 K) : K := (vv p - M / r) * p.x - xv p * p.vx
+def Ay (M r : K) (p : P6 K) : K := (vv p - M / r) * p.y - xv p * p.vy
+def Az (M r : K) (p : P6 K) : K := (vv p - M / r) * p.z - xv p * p.vz
+
+theorem fgApply_rr (c : FG K) (p : P6 K) :
+    rr (fgApply c p) = (1 + c.f) ^ 2 * rr p + 2 * (1 + c.f) * c.g * xv p + c.g ^ 2 * vv p := by
+  simp only [fgApply, rr, vv, xv, sc_hadd, sc_hmul]; ring
+
+theorem fgApply_vv (c : FG K) (p : P6 K) :
+    vv (fgApply c p) = c.fd ^ 2 * rr p + 2 * c.fd * (1 + c.gd) * xv p + (1 + c.gd) ^ 2 * vv p := by
+  simp only [fgApply, rr, vv, xv, sc_hadd, sc_hmul]; ring
+
+theorem fgApply_xv (c : FG K) (p : P6 K) :
+    xv (fgApply c p) = (1 + c.f) * c.fd * rr p + ((1 + c.f) * (1 + c.gd) + c.g * c.fd) * xv p
+      + c.g * (1 + c.gd) * vv p := by
+  simp only [fgApply, rr, vv, xv, sc_hadd, sc_hmul]; ring
+
+theorem fgApply_L (c : FG K) (p : P6 K) :
+    Lx (fgApply c p) = ((1 + c.f) * (1 + c.gd) - c.g * c.fd) * Lx p ∧
+    Ly (fgApply c p) = ((1 + c.f) * (1 + c.gd) - c.g * c.fd) * Ly p ∧
+    Lz (fgApply c p) = ((1 + c.f) * (1 + c.gd) - c.g * c.fd) * Lz p := by
+  refine ⟨?_, ?_, ?_⟩ <;> simp only [fgApply, Lx, Ly, Lz, sc_hadd, sc_hmul] <;> ring
+
+/-- the coefficients of the model in textbook form -/
+theorem fgCoeffs_eq (M r0 r dt G1 G2 G3 : K) :
+    let c := fgCoeffs M (1 / r0) (1 / r) dt G1 G2 G3
+    1 + c.f = 1 - M * G2 / r0 ∧ c.g = dt - M * G3 ∧ c.fd = -(M * G1) / (r0 * r) ∧
+    1 + c.gd = 1 - M * G2 / r := by
+  simp only [fgCoeffs, sc_hmul, sc_hsub, sc_hneg, sc_neg, sc_one, sc_hdiv]
+  refine ⟨by ring, trivial, by ring, by ring⟩
+
+/-- hypotheses under which the update is "the Kepler step": `r0 = |x|`, the four numbers
+    `g` satisfy the Stiefel relations for the orbit's `β` and for `X`, and `X` solves the
+    universal Kepler equation for `dt`. -/
+structure KeplerStep (M dt r0 X : K) (p : P6 K) (g : Cs3 K) : Prop where
+  hr0 : r0 * r0 = rr p
+  r0ne : r0 ≠ 0
+  rel : GRel (invariants M r0 (1 / r0) p).beta X g
+  kepler : r0 * X + (invariants M r0 (1 / r0) p).eta0 * g.c2 + (invariants M r0 (1 / r0) p).zeta0 * g.c3 = dt
+
+/-- `r = r0 + η0 G1 + ζ0 G2`, the quantity whose inverse is `ri` in the C code -/
+def newR (M r0 : K) (p : P6 K) (g : Cs3 K) : K :=
+  r0 + (invariants M r0 (1 / r0) p).eta0 * g.c1 + (invariants M r0 (1 / r0) p).zeta0 * g.c2
+
+theorem invariants_eq (M r0 : K) (p : P6 K) :
+    (invariants M r0 (1 / r0) p).v2 = vv p ∧
+    (invariants M r0 (1 / r0) p).beta = 2 * M * (1 / r0) - vv p ∧
+    (invariants M r0 (1 / r0) p).eta0 = xv p ∧
+    (invariants M r0 (1 / r0) p).zeta0 = M - (2 * M * (1 / r0) - vv p) * r0 := by
+  simp only [invariants, vv, xv, sc_hadd, sc_hsub, sc_hmul, n2_eq, and_self]
+
+end vec
+
 end RV.Kepler
